@@ -17,6 +17,8 @@ mod c06;
 mod c07;
 mod c08;
 mod c09;
+mod c10;
+mod c11;
 mod c15;
 mod c19;
 mod c18;
@@ -44,6 +46,8 @@ fn exec_line(line: &str) -> String {
             "C07" => c07::exec(&op, &a),
             "C08" => c08::exec(&op, &a),
             "C09" => c09::exec(&op, &a),
+            "C10" => c10::exec(&op, &a),
+            "C11" => c11::exec(&op, &a),
             "C15" => c15::exec(&op, &a),
             "C19" => c19::exec(&op, &a),
             "C18" => c18::exec(&op, &a),
@@ -98,6 +102,8 @@ fn main() {
                 "C07" => c07::generate(&mut rng, tier, shard, nshards, &mut emit),
                 "C08" => c08::generate(&mut rng, tier, shard, nshards, &mut emit),
                 "C09" => c09::generate(&mut rng, tier, shard, nshards, &mut emit),
+                "C10" => c10::generate(&mut rng, tier, shard, nshards, &mut emit),
+                "C11" => c11::generate(&mut rng, tier, shard, nshards, &mut emit),
                 "C15" => c15::generate(&mut rng, tier, shard, nshards, &mut emit),
                 "C19" => c19::generate(&mut rng, tier, shard, nshards, &mut emit),
                 "C18" => c18::generate(&mut rng, tier, shard, nshards, &mut emit),
